@@ -70,6 +70,22 @@ def holds(s, p, e):
     return entry_at(s, p) == e
 
 
+def last_key(s):
+    """(last log term, last log index) of a voter, from its log or (dead / not yet ticked) its files."""
+    if not s.alive or len(s.extra) > 2:
+        dl = dict(s.extra).get('durable')
+        if dl is not None:
+            first, ents = dl
+            if not ents:
+                return None
+            return (ents[-1][0], first + len(ents) - 1)
+        if not s.alive:
+            return None
+    if not s.log:
+        return None
+    return (s.log[-1][1], s.log[-1][0])
+
+
 def show(e):
     if e is None:
         return None
@@ -136,6 +152,23 @@ class SafetyMonitor(Monitor):
                                                      nid, p, show(e), ev, cnt, len(mem), mem,
                                                      [(s.nid, show(entry_at(s, p))) for s in sums if s.voter]),
                                                  sig='commit-without-majority')
+                    if ('C04' in C or 'C03' in C) and not model.cfg.dyn and p >= 2:
+                        # "...in a way no later leader can lack": no voter that lacks the entry may still be able
+                        # to win an election, i.e. be at least as up-to-date (last term, last index) as a majority
+                        if sums is None:
+                            sums = model.summaries(post_w)
+                        mem = self.members(model, post)
+                        voters = [s for s in sums if s.nid in mem and s.voter]
+                        keys = {s.nid: last_key(s) for s in voters}
+                        for s in voters:
+                            if keys[s.nid] is None or holds(s, p, e):
+                                continue
+                            beats = sum(1 for t in voters if keys[t.nid] is not None and keys[s.nid] >= keys[t.nid])
+                            if beats * 2 > len(mem):
+                                raise core.Violation('C04 %s reports position %d %r committed at %r, but %s does not store it and its log '
+                                                     '(last term, index)=%r is at least as up-to-date as %d of %d voters %r: it can still be '
+                                                     'elected and replace the entry' % (nid, p, show(e), ev, s.nid, keys[s.nid], beats, len(mem),
+                                                                                        sorted(keys.items())), sig='committed-but-losable')
                     committed = tset(committed, p, e)
                     regular = tset(regular, p, post.term)
                 elif old != e and 'C04' in C:
@@ -241,6 +274,10 @@ class SafetyMonitor(Monitor):
 
         # ---- log changes: log matching and retention of committed entries (C04)
         if 'C04' in C and (post.log != pre.log or restarted):
+            for i, e in enumerate(post.log):
+                if e[0] != post.first + i:
+                    raise core.Violation('C04 log of %s is not a sequence of consecutive positions after %r: %r (cannot be identical to any '
+                                         'other node log up to a position)' % (nid, ev, [(x[0], x[1]) for x in post.log]), sig='log-not-consecutive')
             if sums is None:
                 sums = model.summaries(post_w)
             for s in sums:
